@@ -13,6 +13,7 @@ import SmppVerif.Model.DriverCorr
 import SmppVerif.Model.DriverPdu
 import SmppVerif.Model.DriverJson
 import SmppVerif.Model.DriverPersist
+import SmppVerif.Model.DriverSession
 
 namespace SmppVerif.Driver
 open SmppVerif SmppVerif.Wire
@@ -206,7 +207,10 @@ def stepS (st : DState) (line : String) : DState × String :=
       | none =>
         match DriverPersist.step ws with
         | some out => (st, out)
-        | none => (st, step line)
+        | none =>
+          match DriverSession.step ws with
+          | some out => (st, out)
+          | none => (st, step line)
 
 partial def loop (h : IO.FS.Stream) (out : IO.FS.Stream) (st : DState) : IO Unit := do
   let line ← h.getLine
